@@ -39,6 +39,9 @@ const c16Batch = 400
 // c16Vector returns the idx-th vector of the systematic enumeration: every command with every
 // argument vector of length 0, 1 and 2 over the token alphabet.
 func c16Vector(idx int) []string {
+	if idx >= c16Short() {
+		return c16SweepVector(idx - c16Short())
+	}
 	nt := len(c16Tokens)
 	per := 1 + nt + nt*nt
 	cmd := c16Commands[(idx/per)%len(c16Commands)]
@@ -54,15 +57,53 @@ func c16Vector(idx int) []string {
 	}
 }
 
-func c16Total() int {
+func c16Short() int {
 	nt := len(c16Tokens)
 	return len(c16Commands) * (1 + nt + nt*nt)
+}
+
+// c16Sweep is the second systematic part: every valid command form with every single argument
+// replaced by every token (an option value that is negative, empty, huge or not a number; an option
+// keyword replaced by another one), including the partition-addressed commands for every partition.
+func c16SweepForms() [][]string {
+	forms := append([][]string(nil), c16Templates...)
+	for part := 0; part < 7; part++ {
+		forms = append(forms, []string{"dm.scan", fmt.Sprint(part), "fz", "0", "COUNT", "5"},
+			[]string{"dm.scan", fmt.Sprint(part), "fz", "0", "MATCH", "k.*", "COUNT", "5", "RC"})
+	}
+	return forms
+}
+
+func c16SweepTotal() int {
+	n := 0
+	for _, f := range c16SweepForms() {
+		n += (len(f) - 1) * len(c16Tokens)
+	}
+	return n
+}
+
+func c16SweepVector(idx int) []string {
+	nt := len(c16Tokens)
+	for _, f := range c16SweepForms() {
+		n := (len(f) - 1) * nt
+		if idx < n {
+			v := append([]string(nil), f...)
+			v[1+idx/nt] = c16Tokens[idx%nt]
+			return v
+		}
+		idx -= n
+	}
+	return []string{"ping"}
+}
+
+func c16Total() int {
+	return c16Short() + c16SweepTotal()
 }
 
 func init() {
 	space := (c16Total() + c16Batch - 1) / c16Batch
 	register(&Meta{ID: "C16", Level: "exploration", QuickSec: 45, ThoroSec: 900, WallMaxS: 90, Space: space,
-		Rule: fmt.Sprintf("argument vectors over a token alphabet (%d tokens: keywords in both cases, valid / empty / negative / huge / non-numeric numbers, empty and binary strings, in- and out-of-range partition ids) for %d command names (public, internal, unknown, mixed case): all vectors of length 0-2 are enumerated systematically in batches of %d (%d batches; run i takes batch i), and every run adds %d longer vectors made by mutating valid command forms (truncation after an option, replaced, duplicated and swapped arguments, case changes) plus random byte streams written to the socket; every input is written to a simulated connection in seeded segments, followed on the same connection by a tagged PING, and every 25 inputs a fresh connection must be served; a second connection sends its own traffic concurrently. Violations: the worker process dies (panic in a handler), has to be killed because a goroutine spins, a well-formed request gets no reply within 5 simulated seconds (except waiting locks), or a fresh connection is not served; non-trivial = the batch contained at least one vector answered with an error and one answered normally; distinct = batches", len(c16Tokens), len(c16Commands), c16Batch, space, c16Batch/2),
+		Rule: fmt.Sprintf("argument vectors over a token alphabet (%d tokens: keywords in both cases, valid / empty / negative / huge / non-numeric numbers, empty and binary strings, in- and out-of-range partition ids) for %d command names (public, internal, unknown, mixed case): all vectors of length 0-2, and every valid command form (partition-addressed ones for every partition, all holding data) with each single argument replaced by each token, are enumerated systematically in batches of %d (%d batches; run i takes batch i), and every run adds %d longer vectors made by mutating valid command forms (truncation after an option, replaced, duplicated and swapped arguments, case changes) plus random byte streams written to the socket; every input is written to a simulated connection in seeded segments, followed on the same connection by a tagged PING, and every 25 inputs a fresh connection must be served; a second connection sends its own traffic concurrently. Violations: the worker process dies (panic in a handler), has to be killed because a goroutine spins, a well-formed request gets no reply within 5 simulated seconds (except waiting locks), or a fresh connection is not served; non-trivial = the batch contained at least one vector answered with an error and one answered normally; distinct = batches", len(c16Tokens), len(c16Commands), c16Batch, space, c16Batch/2),
 		Assume: []string{"the in-bubble member runs the same redcon server, mux and handlers as olric-server; no OS sockets are involved", "a worker that dies or spins is observed from outside by the orchestrator (one OS process per run)"},
 	}, genC16, oracleC16)
 }
@@ -100,6 +141,10 @@ func genC16(seed uint64, tier string) *plan.Plan {
 	// some state for the commands to act on
 	add([]string{"dm.put", "fz", "k", "v"})
 	add([]string{"dm.put", "fz", "n", "5"})
+	for i := 0; i < 40; i++ {
+		// every partition holds a primary and a backup fragment of the DMap
+		add([]string{"dm.put", "fz", fmt.Sprintf("k%d", i), "v"})
+	}
 	for i := batch * c16Batch; i < (batch+1)*c16Batch && i < c16Total(); i++ {
 		add(c16Vector(i))
 	}
